@@ -173,3 +173,17 @@ package interpreter
 //@ func interpreter.(*DefaultOpcodeParser).Parse
 //@   loop 0 invariant (<= 0 i)
 //@   loop 0 decreases (- (len script) i)
+
+// ---- effects on the caller's transaction (C08) ----
+// the only stores into the transaction passed to Execute are the two fields thread.apply records on the checked input
+//@ func interpreter.(*thread).apply
+//@   opt writes-existing F:bt.Input.PreviousTxSatoshis F:bt.Input.PreviousTxScript
+//@ func interpreter.createThread
+//@   opt writes-existing F:bt.Input.PreviousTxSatoshis F:bt.Input.PreviousTxScript
+//@ func interpreter.(*engine).Execute
+//@   opt writes-existing F:bt.Input.PreviousTxSatoshis F:bt.Input.PreviousTxScript
+// the signature opcodes set the script code on a Clone() of the transaction: proved to be fresh memory
+//@ func interpreter.opcodeCheckSig
+//@   opt frame-keys F:bt.Input.PreviousTxScript
+//@ func interpreter.opcodeCheckMultiSig
+//@   opt frame-keys F:bt.Input.PreviousTxScript
